@@ -31,6 +31,9 @@ pub assume_specification<T, A: core::alloc::Allocator>[ Vec::<T, A>::capacity ](
 pub broadcast axiom fn ax_slice_ext(a: &[u8], b: &[u8])
     ensures (a == b) == (#[trigger] a@ == #[trigger] b@);
 
+/// (not used by the code as it is) Vec operations that keep / cut the content
+pub assume_specification<T, A: std::alloc::Allocator>[ Vec::<T, A>::shrink_to_fit ](v: &mut Vec<T, A>)
+    ensures final(v)@ == old(v)@;
 /// R23 SHIM for `slice.chunks(n)` (not used by the code as it is): pieces of at most n bytes whose concatenation is the slice
 pub open spec fn concat_chunks(c: Seq<&[u8]>) -> Seq<u8> decreases c.len() { if c.len() == 0 { Seq::empty() } else { concat_chunks(c.drop_last()) + c.last()@ } }
 pub trait VChunks: vstd::view::View<V = Seq<u8>> {
